@@ -96,9 +96,9 @@ def run(replay=None):
         if not clause.startswith(TOTALITY):
             continue          # semantic clauses are judged by C08-C13
         inf = dict(rec.info[i])
-        inf['pin'] = next(e['in'] for e in rec.events if e['id'] == i)
+        inf['pin'] = rec.event_dict(i)['in']
         rep.violation(signature(clause, inf), '%s(%r) -> %s violates %s' % (inf['op'], inf['text'], inf['result'] or inf['out'], clause), inf)
-    for e in rec.events[:: max(1, len(rec.events) // 8)]:
+    for e in rec.dict_events()[:: max(1, len(rec.dict_events()) // 8)]:
         rep.sample({'op': e['op'], 'input': rec.info[e['id']]['text'], 'outcome': e['out']})
     return rep.finish()
 
